@@ -5,7 +5,7 @@ import re, json, os
 DIRECTIVES = {
     'unit', 'serves', 'module', 'features', 'prelude', 'specs', 'flags', 'assumptions', 'item',
     'pre_attrs', 'requires', 'ensures', 'decreases', 'keep_fields', 'derives', 'loop', 'closure',
-    'params', 'cret', 'crequires', 'censures', 'adapter', 'bind', 'insert', 'wrap', 'carries', 'adapt', 'brk_type', 'assumed_begin', 'assumed_end', 'sentinel_specs', 'nosentinel', 'note', 'carve',
+    'params', 'cret', 'crequires', 'censures', 'adapter', 'bind', 'insert', 'wrap', 'carries', 'adapt', 'eta', 'brk_type', 'assumed_begin', 'assumed_end', 'sentinel_specs', 'nosentinel', 'note', 'carve',
 }
 
 _dir_re = re.compile(r'^\s*@([a-z_]+)\b(.*)$')
@@ -132,6 +132,10 @@ def parse(path):
         elif d == 'adapt':
             a = arg.split()
             item.setdefault('adapts', []).append({'chain': a[0], 'wrapper': a[1], 'recv': a[2] if len(a) > 2 and a[2] != 'soft' else '', 'soft': 'soft' in a[2:]})
+        elif d == 'eta':
+            # @eta Enum::Variant | PayloadType | ResultType
+            a = [x.strip() for x in arg.split('|')]
+            item.setdefault('etas', []).append({'path': a[0], 'ty': a[1], 'ret': a[2]})
         elif d == 'brk_type':
             k, _, ty = arg.partition(' ')
             item.setdefault('brk_types', {})[str(int(k))] = ty.strip()
@@ -214,13 +218,13 @@ def contract_text(item, sentinel=False):
 
 
 def _has_fn_contract(item):
-    return any(item.get(k) for k in ('requires', 'ensures', 'decreases', 'ret', 'loops', 'inserts', 'closures', 'wraps', 'adapts'))
+    return any(item.get(k) for k in ('requires', 'ensures', 'decreases', 'ret', 'loops', 'inserts', 'closures', 'wraps', 'adapts', 'etas'))
 
 
 def is_fn_item(item):
     if item.get('assumed'):
         return False
-    return any(item.get(k) for k in ('requires', 'ensures', 'decreases', 'ret', 'loops', 'inserts', 'closures', 'wraps', 'adapts')) and not item.get('keep_fields')
+    return any(item.get(k) for k in ('requires', 'ensures', 'decreases', 'ret', 'loops', 'inserts', 'closures', 'wraps', 'adapts', 'etas')) and not item.get('keep_fields')
 
 
 def job(u, sentinel=False, soft_inserts=False, drop_inserts=None, repo=None):
@@ -275,6 +279,8 @@ def job(u, sentinel=False, soft_inserts=False, drop_inserts=None, repo=None):
             j['wraps'] = it['wraps']
         if it.get('adapts'):
             j['adapts'] = it['adapts']
+        if it.get('etas'):
+            j['etas'] = it['etas']
         if it.get('brk_types'):
             j['brk_types'] = it['brk_types']
         items.append(j)
